@@ -202,6 +202,12 @@ func checkC09(c CaseC09) (*vkit.Failure, vkit.Meta) {
 		refs := make([]*gkit.RefResult, n)
 		for i := 0; i < n; i++ {
 			refs[i] = gkit.Ref(c.Spec, "", fixInput(c.Spec, c.Inputs[i]), gkit.RefOpts{})
+			if baseClass(refs[i].Fail) == "toobig" {
+				// values that grow geometrically in a loop: the reference gave up, and the run itself would spend minutes
+				// rendering them - nothing is asserted (a slow case must not look like a stuck one)
+				m.Labels = append(m.Labels, "values-too-big-skipped")
+				return nil
+			}
 		}
 		// one option value shared by every call, designated to one (possibly nested) lambda node
 		sh := &shared09{starts: map[string]int{}}
